@@ -6,19 +6,9 @@ from pathlib import Path
 
 ROOT = Path(__file__).resolve().parent.parent
 
-CHECKS = {
-    'C20': dict(
-        category='proof', design_ref='DESIGN.md section 7/C20',
-        text='Lean 4 theorems over an executable model of EventHandler (every finite history of '
-             'connect/disconnect/emit: exactly the connected listeners are called, by descending priority with ties '
-             'in connection order; disconnect removes exactly the named listener). The model is tied to '
-             'tenpy/tools/events.py on every run by running identical generated histories through the real class '
-             'and the Lean model and diffing the outputs; an independent list-based oracle classifies failures.',
-        note='Trusted: Lean kernel, standard axioms only (audited with #print axioms on every run), the JSON '
-             'line-protocol driver and harness. Callbacks are abstracted to identities. Cache/thread part of C20: '
-             'in progress.',
-        technique='Lean 4 proof (invariant + refinement to a list spec) + differential correspondence'),
-}
+CHECKS = {}
+for f in sorted((ROOT / 'harness').glob('C*.manifest.json')):
+    CHECKS[f.name.split('.')[0]] = json.loads(f.read_text())
 
 ALL = ['C%02d' % i for i in range(1, 21)]
 
